@@ -96,13 +96,16 @@ def run_program(ctx, n, hist, rng, kind, inplace):
         ids = [id(G) for G in Y]
         raised = False
         what = '%s(%d) %s on n=%s ranks %s [%s]' % (op, i, 'inplace' if inplace else 'copy', n, [G.shape[2] for G in Y[:-1]], kind)
+        # a mode number is a mode number whether it is a Python int or a NumPy integer scalar (rng.integers, argmax, arange ...)
+        i_arg = [i, np.int64(i), np.int32(i), np.intp(i), np.uint8(i) if 0 <= i < 200 else i][(s + len(n) + i) % 5]
+        what += '' if type(i_arg) is int else ' (mode number as %s)' % type(i_arg).__name__
         try:
             if op == 'left':
-                Z = teneva.orthogonalize_left(Y, i, inplace=inplace)
+                Z = teneva.orthogonalize_left(Y, i_arg, inplace=inplace)
             elif op == 'right':
-                Z = teneva.orthogonalize_right(Y, i, inplace=inplace)
+                Z = teneva.orthogonalize_right(Y, i_arg, inplace=inplace)
             else:
-                Z = teneva.orthogonalize(Y, i)
+                Z = teneva.orthogonalize(Y, i_arg)
         except ValueError:
             raised = True
         except Exception as ex:
@@ -285,7 +288,7 @@ def run(ctx):
             Y = [G * 2.0 ** s_ for G, s_ in zip(Y, sh)]
         keep = [G.copy() for G in Y]
         try:
-            ev, out = record_sweep(Y, k, stab)
+            ev, out = record_sweep(Y, [k, np.int64(k), np.int32(k)][t % 3], stab)
         except Exception as ex:
             ctx.violation('orthogonalize:raises', 'orthogonalize(k=%d, use_stab=%s) raised %s: %s (n=%s, kind %s)' % (k, stab, type(ex).__name__, ex, n, kind),
                           case={'n': n, 'r': r, 'k': k, 'stab': stab, 'kind': kind})
